@@ -132,7 +132,11 @@ class Ctx(object):
                 continue
             if f['where'] != where or f['kind'] != kind:
                 continue
-            if SafeExpr.eval(f.get('when', 'always'), info):
+            if SafeExpr.eval(f.get('when', 'always'), info) or (
+                    os.environ.get('VERIF_REFINE_SIGS') and 'sig in' in f.get('when', '') and isinstance(info, dict)
+                    and isinstance(info.get('sig'), str)):
+                # (maintenance, tools/refine_findings.py only: a failure of a listed (where, kind) with a signature the list does
+                # not have yet is collected so that the finding can be widened by hand-reviewed union)
                 fid = f.get('id', where + '/' + kind)
                 if fid not in self.known_hits:
                     self.known_hits[fid] = 0
